@@ -10,5 +10,6 @@ CONSTANTS
   Es = 8
   MaxB = 16
   MaxPa = 0
+  TRem = {}
 INVARIANTS Inv Refines LookupOK ChkOK CapacityOK Bounded
 CHECK_DEADLOCK FALSE
